@@ -86,7 +86,7 @@ def str_lits(body):
 def ctor_names(body, enum):
     """short names of `enum` variants mentioned (as expressions) in body."""
     out = []
-    for n in walk(body):
+    for n in walk(body, pats=False):
         if n.get("k") == "Path" and (n.get("res") or "").startswith(enum + "::") and n.get("res_kind", "").startswith("Ctor"):
             out.append(short(n["res"]))
     return out
